@@ -118,7 +118,7 @@ class Ctx:
                 for ext in ('.vo', '.glob', '.vok', '.vos'):
                     try: os.remove(os.path.join(COQ, t[:-3] + ext))
                     except OSError: pass
-        cmd = "flock %s/.coqlock sh -c '%s/bin/mkcoqproject; timeout %d make -k -j16 %s'" % (BUILD, VERIF, timeout, ' '.join(targets))
+        cmd = "flock %s/.coqlock sh -c 'ulimit -v 16000000; %s/bin/mkcoqproject; timeout %d make -k -j16 %s'" % (BUILD, VERIF, timeout, ' '.join(targets))
         rc, out, err = sh(cmd, cwd=COQ, timeout=timeout + 60)
         built = [t for t in targets if os.path.exists(os.path.join(COQ, t)) and
                  os.path.getmtime(os.path.join(COQ, t)) >= os.path.getmtime(os.path.join(COQ, t[:-1]))]
@@ -154,7 +154,7 @@ class Ctx:
         procs = []
         for pf in props_files:
             if ok:
-                procs.append((pf, subprocess.Popen('timeout %d coqc -R . SV %s' % (timeout, pf), shell=True, cwd=COQ,
+                procs.append((pf, subprocess.Popen('ulimit -v 16000000; timeout %d coqc -R . SV %s' % (timeout, pf), shell=True, cwd=COQ,
                                                    stdout=subprocess.PIPE, stderr=subprocess.STDOUT, text=True)))
             else:
                 self.broken.append(('coq:' + pf, first_error(log)))
